@@ -195,6 +195,10 @@ func (*hconc) Run(rc *core.RunCtx) *core.RunResult {
 			// a job that fails mid-way next to succeeding ones
 			j.planKind = []int{simos.PlanTransient, simos.PlanPersistent, simos.PlanEOF}[t.Intn(3)]
 			j.planAt = t.Intn(40)
+			if t.Intn(2) == 0 {
+				// later: inside the lazy reads of the display, not the decode
+				j.planAt = t.Intn(600)
+			}
 		}
 		jobs = append(jobs, j)
 	}
